@@ -688,7 +688,7 @@ func runC10(p *load.Program, r *core.Report) {
 	}
 	// ---- N2
 	rule2 := "C10.N2 parent-link-and-exit-sender"
-	r.Floor(rule2, 3)
+	r.Floor(rule2, 4)
 	{
 		sp := p.Func("node", a.NodeT.Obj().Name(), "spawn")
 		key := "C10.N2|spawn|link"
@@ -787,6 +787,29 @@ func runC10(p *load.Program, r *core.Report) {
 						good++
 					} else {
 						bad = append(bad, "sendExitMessage at "+p.Pos(in.Pos())+" with a sender other than the failed process's pid")
+					}
+				}
+				// ... and the processes linked TO the failed process (children started with LinkParent
+				// only: pool workers) are drained: RouteTerminatePID(p.pid, err) on every failure path
+				{
+					key4 := "C10.N2|spawn|init-failure-drain"
+					inst4 := "when ProcessInit fails, the relations that target the failed process are drained (children linked to it by LinkParent get its exit)"
+					isDrain := func(in ssa.Instruction) bool {
+						cc := callCommon(in)
+						if cc == nil || !callsNamed(in, "RouteTerminatePID") {
+							return false
+						}
+						args := cc.Args
+						if !cc.IsInvoke() && cc.Signature().Recv() != nil {
+							args = args[1:]
+						}
+						_, p0, _ := fieldPath(args[0])
+						return len(p0) > 0 && p0[len(p0)-1] == "pid"
+					}
+					if hit := reaches(starts, isDrain, isReturn); hit != nil {
+						r.Bad(rule2, key4, fname(sp), p.Pos(hit.Pos()), inst4, "the failure path returns at "+p.Pos(hit.Pos())+" without RouteTerminatePID(p.pid, …): workers a pool spawned before its initialisation failed keep running without an owner")
+					} else {
+						r.OK(rule2, key4, fname(sp), p.Pos(initCall.Pos()), inst4, "every failure path passes RouteTerminatePID(p.pid, err)")
 					}
 				}
 				switch {
